@@ -196,9 +196,9 @@ pub fn check_with(c: &EncCase, strict: Strictness, ctx: &Ctx) -> Verdict {
                     match stats.chosen_cost {
                         Some(cost) if stats.calls == 1 => {
                             // the planner priced the plan it selected at `predicted` codewords and the encoder
-                            // stayed within the first listed symbol that holds that many
+                            // did not need a larger symbol than the first listed one that holds that many
                             let predicted = stats.written + cost;
-                            caps.iter().find(|x| **x >= predicted).copied() == Some(cc)
+                            caps.iter().find(|x| **x >= predicted).map_or(true, |first| cc <= *first)
                         }
                         _ => false,
                     }
@@ -282,16 +282,67 @@ fn corpus_strings(max_len: usize) -> Vec<Vec<u8>> {
     out
 }
 
-/// fixed-seed class-run sample (does not depend on VERIF_SEED)
+/// Frozen corpus generator: does not depend on VERIF_SEED nor on the proptest strategies (which
+/// may evolve); a plain splitmix64 stream drives class runs and end-of-data shaped strings.
+/// Changing this function changes the corpus and therefore requires regenerating the exact
+/// known-finding list (tools/c10_findings.py).
 fn corpus_sample(n: usize) -> Vec<Vec<u8>> {
-    use proptest::strategy::{Strategy, ValueTree};
-    use proptest::test_runner::{Config, RngSeed, TestRunner};
-    let mut cfg = Config::default();
-    cfg.rng_seed = RngSeed::Fixed(0xC10C_0A05);
-    cfg.failure_persistence = None;
-    let mut runner = TestRunner::new(cfg);
-    let strat = g_bytes_short();
-    (0..n).map(|_| strat.new_tree(&mut runner).unwrap().current().0).collect()
+    let mut state: u64 = 0xC10C_0A05_2026_1003;
+    let mut next = move || {
+        state = splitmix(state);
+        state
+    };
+    let class_char = |class: u64, r: u64| -> u8 {
+        let r = (r >> 8) as u8;
+        match class % 9 {
+            0 => b'0' + r % 10,
+            1 => b'A' + r % 26,
+            2 => b'a' + r % 26,
+            3 => b" \r*>"[(r % 4) as usize],
+            4 => b' ',
+            5 => 32 + r % 63,
+            6 => b"!\"#$%&'()*+,-./:;<=>?@[\\]^_"[(r % 27) as usize],
+            7 => r % 32,
+            _ => 128 + r % 128,
+        }
+    };
+    let mut out = Vec::with_capacity(n);
+    for _ in 0..n {
+        let mut v = Vec::new();
+        if next() % 3 != 0 {
+            // class runs
+            let runs = 1 + next() % 7;
+            for _ in 0..runs {
+                let class = next();
+                let len = 1 + next() % 9;
+                for _ in 0..len {
+                    v.push(class_char(class, next()));
+                }
+            }
+        } else {
+            // end-of-data shaped: prefix, body of 3k+d / 4k+d characters of one class, tail
+            let plen = next() % 4;
+            let pclass = next();
+            for _ in 0..plen {
+                v.push(class_char(pclass, next()));
+            }
+            let bclass = [1u64, 2, 3, 0, 5, 8][(next() % 6) as usize];
+            let k = 1 + next() % 8;
+            let d = next() % 4;
+            let blen = if next() % 2 == 0 { 3 * k + d } else { 4 * k + d };
+            for _ in 0..blen {
+                v.push(class_char(bclass, next()));
+            }
+            let tl = next() % 5;
+            let tclass = [0u64, 0, 1, 2, 8, 4, 6][(next() % 7) as usize];
+            for _ in 0..tl {
+                v.push(class_char(tclass, next()));
+            }
+        }
+        v.truncate(64);
+        out.push(v);
+    }
+    out
 }
 
 fn extra(ctx: &Ctx) -> Map<String, Value> {
@@ -338,7 +389,8 @@ fn run_stages(ctx: &Arc<Ctx>) {
     // (a) fixed corpus, strict
     let mut corpus = Vec::new();
     let strings = corpus_strings(5);
-    let sample = corpus_sample(if ctx.quick() { 10_000 } else { 100_000 });
+    // the corpus is the same in both tiers: every sub-optimal input in it is listed by exact signature
+    let sample = corpus_sample(10_000);
     for (list, modes) in corpus_configs() {
         for s in strings.iter().chain(sample.iter()) {
             corpus.push(EncCase { data: s.clone(), list, modes, macros: false, fnc1: false, eci: None, stratum: "corpus" });
